@@ -30,7 +30,8 @@ RULE = (
     "brand-new TMPDIR without cache; cache=off: directory listing (names, sizes, mtimes) of TMPDIR unchanged and the audit "
     "hook saw no open/mkdir/rename/remove inside TMPDIR and no mutation outside the output dir; cache=on: exactly "
     "model-<sha256(text)>.pickle is added for accepted models (nothing for rejected ones), only that entry is opened for "
-    "reading. Second generator: pickle transparency on drawn models: all 8 targets generated from the unpickled symbol "
+    "reading. Second generator: pickle transparency on drawn models: every *_id_set query of every entity answers alike "
+    "(ids translated to entity labels) for the original and the unpickled table; all 8 targets generated from the unpickled symbol "
     "table (second load_model(cache_model=True)) are byte-identical to those from the fresh table and intermediate.dump "
     "is equal. Non-trivial history = contains cached-run -> edit -> cached-run -> revert -> cached-run on one model; "
     "non-trivial transparency case = accepted model with >=2 classes; distinct by step list / model text."
@@ -491,6 +492,49 @@ def make_machine(ctx: runner.Ctx, refs: Dict[Any, Any], max_steps: int) -> Any:
 # ---------------------------------------------------------------------------
 
 
+def id_set_answers(symtab: Any) -> Dict[str, List[str]]:
+    """Every ``*_id_set`` query of every entity of the table, with the ids translated to entity labels
+    (identity does not survive pickling, membership must)."""
+    reg = {}  # type: Dict[int, str]
+    objs = []  # type: List[Tuple[str, Any]]
+
+    def add(label: str, o: Any) -> None:
+        reg[id(o)] = label
+        objs.append((label, o))
+
+    for t in symtab.our_types:
+        add(f"type:{t.name}", t)
+        for attr in ("properties", "methods", "invariants", "literals", "inheritances"):
+            seq = getattr(t, attr, None)
+            if isinstance(seq, (list, tuple)):
+                for i, x in enumerate(seq):
+                    if id(x) not in reg:
+                        add(f"{t.name}.{attr}[{i}]:{getattr(x, 'name', '')}", x)
+        ctor = getattr(t, "constructor", None)
+        if ctor is not None and id(ctor) not in reg:
+            add(f"{t.name}.constructor", ctor)
+    for attr in ("constants", "verification_functions"):
+        for x in getattr(symtab, attr, []):
+            if id(x) not in reg:
+                add(f"{attr}:{getattr(x, 'name', '')}", x)
+            for i, lit in enumerate(getattr(x, "literals", []) or []):
+                if id(lit) not in reg:
+                    add(f"{attr}:{getattr(x, 'name', '')}.literals[{i}]", lit)
+    out = {}  # type: Dict[str, List[str]]
+    for label, o in objs:
+        for name in dir(o):
+            if name.startswith("_") or not name.endswith("id_set"):
+                continue
+            try:
+                val = getattr(o, name)
+            except BaseException as e:  # noqa
+                out[f"{label}.{name}"] = [f"raises {type(e).__name__}"]
+                continue
+            if isinstance(val, (set, frozenset)):
+                out[f"{label}.{name}"] = sorted(reg.get(i, "<unknown object>") for i in val)
+    return out
+
+
 def transparency(text: str, base: pathlib.Path) -> Tuple[str, List[Tuple[str, str]]]:
     """('rejected'|'accepted', failures)."""
     from aas_core_codegen import intermediate, main as cg_main, run as cg_run, specific_implementations
@@ -536,6 +580,17 @@ def transparency(text: str, base: pathlib.Path) -> Tuple[str, List[Tuple[str, st
             fails.append((f"unpickled:dump-raises:{runner.exc_bucket(e)}", runner.exc_text(e)))
         if cached[1].text != fresh[1].text:
             fails.append(("unpickled:atok-text-differs", ""))
+        try:
+            q1, q2 = id_set_answers(fresh[0]), id_set_answers(cached[0])
+            diff = sorted(k for k in set(q1) | set(q2) if q1.get(k) != q2.get(k))
+            if diff:
+                k = diff[0]
+                fails.append((f"unpickled:id-set-query-differs:{k.rsplit('.', 1)[-1]}",
+                              f"{len(diff)} queries differ, e.g. {k}: original {q1.get(k)} vs unpickled {q2.get(k)}"))
+        except BaseException as e:  # noqa
+            if isinstance(e, (KeyboardInterrupt, MemoryError)):
+                raise
+            fails.append((f"unpickled:id-set-query-raises:{runner.exc_bucket(e)}", runner.exc_text(e)))
         mods = {t: sys.modules[f"aas_core_codegen.{t}.main"] for t in sut.TARGETS}
         for t in sut.TARGETS:
             sd = d / f"sn-{t}"
